@@ -183,23 +183,41 @@ def rule_batch(ctx) -> None:
         ctx.check(okp, "C04.BATCH", f"{APPLY}/fallback-same-deltas", fn.loc(c),
                   "fallback iterates the very list passed to the batch call, one element per call",
                   "fallback does not iterate the batch list element-wise")
-    # statements after the batch call inside the same try body that may raise -> information
+    # "only if that batch call fails": nothing else inside the batch try may raise into the replaying handler - reading the
+    # store's counters there (`int(res["edits"])`, `key in res`) turns an oddly shaped *successful* result into a replay
     if batch_try is not None:
+        from ..util import _block_cannot_raise, total_helpers
+        allow = total_helpers(ctx, fn)
         seen_call = False
+        n_after = 0
         for st in batch_try.body:
             has = any(c is bc for _, bc in batch for c in [x for x in walk_no_defs(st) if isinstance(x, ast.Call)])
             if has:
                 seen_call = True
+                # the statement holding the call: only the call itself (res = apply_fn(...))
+                inner = [x for x in walk_no_defs(st) if isinstance(x, ast.Call) and not any(x is bc for _, bc in batch)]
+                bad_inner = [x for x in inner if dotted(x.func) not in allow]
+                ctx.check(not bad_inner, "C04.BATCH", f"{APPLY}/batch-try-holds-only-the-call", fn.loc(st), "the statement of the batch call does nothing else that can raise",
+                          f"`{src(bad_inner[0])[:50] if bad_inner else ''}` shares the statement (and the replaying handler) with the batch call")
                 continue
             if seen_call:
-                ctx.info("C04.BATCH", f"{APPLY}/post-batch-bookkeeping", fn.loc(st),
-                         f"bookkeeping after a successful batch call shares its try: `{src(st)[:70]}` raising would re-run the fallback "
-                         "(needs a store returning non-numeric counts; outside the statement's fault model)")
+                n_after += 1
+                ok, badn = _block_cannot_raise([st], allow)
+                ctx.check(ok, "C04.BATCH", ctx.okey(f"{APPLY}/after-batch-cannot-raise"), fn.loc(st),
+                          "bookkeeping after the batch call inside its try cannot raise",
+                          f"`{src(badn)[:60] if badn is not None else src(st)[:60]}` runs after the batch call has SUCCEEDED but inside the try whose handler replays the deltas one by one: "
+                          "if it raises (a store returning None, a bare int, or a counter int() rejects) every approved delta is handed to the store a second time")
+        ok, badn = _block_cannot_raise(batch_try.orelse, allow)
+        ctx.check(ok, "C04.ESC", f"{APPLY}/batch-else-cannot-raise", fn.loc(badn) if badn is not None else fn.loc(batch_try),
+                  "the counters of a successful batch are read outside the guard through helpers that cannot raise",
+                  f"`{src(badn)[:60] if badn is not None else ''}` in the else branch of the batch try can raise: an oddly shaped store result aborts the turn and skips the version bump")
 
 
 def rule_esc(ctx) -> None:
+    from ..util import total_helpers
     fn = ctx.func(APPLY)
     cfg = ctx.cfg(fn)
+    allow = total_helpers(ctx, fn)
     n_sites = 0
     for n in cfg.nodes:
         for c in node_calls(n):
@@ -218,7 +236,7 @@ def rule_esc(ctx) -> None:
             bad = None
             for h in t.handlers:
                 if handler_catches_all(h):
-                    ok, badn = handler_cannot_raise(h)
+                    ok, badn = handler_cannot_raise(h, allow_calls=sorted(allow))
                     if not ok:
                         bad = badn
             ctx.check(bad is None, "C04.ESC", key, fn.loc(c),
